@@ -46,6 +46,33 @@ func (m *Machine) eqnil(t types.Type, x, y value) value {
 }
 
 func (m *Machine) binop(op token.Token, t types.Type, x, y value) value {
+	if sl, ok := x.(*symLen); ok {
+		if c, ok := y.(int); ok {
+			switch op {
+			case token.SUB:
+				return &symLen{s: sl.s, delta: sl.delta - c}
+			case token.ADD:
+				return &symLen{s: sl.s, delta: sl.delta + c}
+			case token.GTR, token.NEQ: // len(s) > 0 etc. for a rope with a non-empty literal part
+				if c == 0 && sl.delta == 0 {
+					for _, g := range sl.s.segs {
+						if g.k == segLit && g.lit != "" || g.k == segDec || g.k == segIP4 {
+							return true
+						}
+					}
+				}
+			case token.EQL:
+				if c == 0 && sl.delta == 0 {
+					for _, g := range sl.s.segs {
+						if g.k == segLit && g.lit != "" || g.k == segDec || g.k == segIP4 {
+							return false
+						}
+					}
+				}
+			}
+		}
+		panic(unsupported("arithmetic on the length of a symbolic string"))
+	}
 	_, xs := x.(*sym)
 	_, ys := y.(*sym)
 	if xs || ys {
@@ -192,6 +219,17 @@ func (m *Machine) slice(x, lo, hi, max value) value {
 		Len = len(a)
 		Cap = cap(a)
 	case *symStr:
+		// only s[:len(s)-k] with the cut inside the trailing literal
+		if lo == nil || lo == 0 {
+			if sl, ok := hi.(*symLen); ok && sl.s == x && sl.delta <= 0 {
+				last := x.segs[len(x.segs)-1]
+				if last.k == segLit && len(last.lit) >= -sl.delta {
+					segs := append([]seg{}, x.segs...)
+					segs[len(segs)-1].lit = last.lit[:len(last.lit)+sl.delta]
+					return normRope(segs)
+				}
+			}
+		}
 		panic(unsupported("slicing a symbolic string"))
 	}
 	l := int64(0)
@@ -322,7 +360,7 @@ func (m *Machine) callBuiltin(caller *frame, callpos token.Pos, fn *ssa.Builtin,
 		case *omap:
 			return x.len()
 		case *symStr:
-			panic(unsupported("len of symbolic string " + x.String()))
+			return &symLen{s: x}
 		default:
 			panic(fmt.Sprintf("len: illegal operand: %T", x))
 		}
